@@ -840,3 +840,24 @@ Proof.
     [reflexivity | left; reflexivity |].
   rewrite HF. reflexivity.
 Qed.
+
+(* ---- what the shallow skeletons state, and why that is what a source-certified program returns: the shallow skeleton (pure_prog) of an entry
+   point evaluates to exactly the data's dtype; so does every output of an extracted program that passes the exact check - hence, for the
+   entry points whose extracted program is certified exact on this run, the shallow skeleton and the program extracted from the code agree *)
+Lemma pure_prog_exact c t m n s e : In t ctxs -> In (s, e) (p_outs (pure_prog c)) ->
+  eval (mkenv t m) (run (mkenv t m) (pure_prog c) n) e = t.
+Proof.
+  intros Ht Hin. change (pure_prog c) with (skeleton (cfg0 FPure)) in Hin |- *.
+  apply (outputs_exact_context t m (cfg0 FPure) n s e Ht).
+  - unfold valid_cfg. simpl. repeat (try (left; reflexivity); right).
+  - exact Hin.
+  - simpl in Hin. destruct Hin as [Hin|[]]. injection Hin as <- <-. reflexivity.
+  - simpl in Hin. destruct Hin as [Hin|[]]. injection Hin as <- <-. reflexivity.
+Qed.
+Theorem shallow_matches_certified_program p want : ext_exact_any p want = true ->
+  forall c t m n k o s e, In t ctxs -> In m mask_dts -> In k want -> nth_error (p_outs p) k = Some o -> In (s, e) (p_outs (pure_prog c)) ->
+  eval (mkenv t m) (run (mkenv t m) p n) (snd o) = eval (mkenv t m) (run (mkenv t m) (pure_prog c) n) e.
+Proof.
+  intros H c t m n k o s e Ht Hm Hk Ho Hin.
+  rewrite (ext_exact_any_sound p want H t m Ht Hm k o Hk Ho n). symmetry. exact (pure_prog_exact c t m n s e Ht Hin).
+Qed.
